@@ -955,6 +955,12 @@ def req_C13(r, tier):
     out.append(("eds.batch:len_mismatch_sigs", "eds.batch %s %s %s" % (lst(hx(t[1]) for t in tr), lst(t[2].hex() for t in tr[:2]), lst(t[3].hex() for t in tr))))
     out.append(("eds.batch:len_mismatch_keys", "eds.batch %s %s %s" % (lst(hx(t[1]) for t in tr), lst(t[2].hex() for t in tr), lst(t[3].hex() for t in tr[:1]))))
     out.append(("eds.batch:len_mismatch_all_differ", "eds.batch %s %s %s" % (lst(hx(t[1]) for t in tr[:1]), lst(t[2].hex() for t in tr[:2]), lst(t[3].hex() for t in tr))))
+    # every length triple (messages, signatures, keys) in {0..3}^3, mismatched or not (incl. an EMPTY list next to non-empty ones)
+    for a in range(4):
+        for b in range(4):
+            for c in range(4):
+                if not (a == b == c and a > 0):
+                    out.append(("eds.batch:lens_%d_%d_%d" % (a, b, c), "eds.batch %s %s %s" % (lst(hx(t[1]) for t in tr[:a]), lst(t[2].hex() for t in tr[:b]), lst(t[3].hex() for t in tr[:c]))))
     # transcript history: the sequence of (label, message) operations on the merlin transcript must be the specified one
     for n in (0, 1, 2, 3, 5):
         tr = list(base[:n])
@@ -1026,6 +1032,7 @@ def req_C16(r, tier):
                     pref = (len(v)).to_bytes(8, "little") + v
                     for lab, enc in (("raw", raw), ("prefixed", pref), ("raw_short", raw[:-1]), ("raw_long", raw + b"\x00"), ("prefixed_short", pref[:-1]),
                                      ("prefixed_long", pref + b"\x07"), ("prefix31", (31).to_bytes(8, "little") + v[:31]), ("prefix33", (33).to_bytes(8, "little") + v + b"\x01"),
+                                     ("prefix2n", (2 * len(v)).to_bytes(8, "little") + v + v), ("prefix0", (0).to_bytes(8, "little")),
                                      ("hugeprefix", (1 << 62).to_bytes(8, "little") + v), ("empty", b"")):
                         out.append(("serde.bincode.de.%s:%s" % (ty, lab), "serde.bincode.de.%s %s" % (ty, hx(enc))))
         for ty, vs in invalid.items():
@@ -1068,8 +1075,15 @@ def req_C17(r, tier):
         out.append(("grp.into_subgroup:" + lab, "grp.into_subgroup " + b.hex()))
         out.append(("grp.clear_cofactor:" + lab, "grp.clear_cofactor " + b.hex()))
         out.append(("grp.is_torsion_free:" + lab, "grp.is_torsion_free " + b.hex()))
+        # the group::Group methods themselves (is_identity, double, identity(), generator()) for EdwardsPoint / SubgroupPoint
+        out.append(("grp.ed_group:" + lab, "grp.ed_group " + b.hex()))
+        out.append(("grp.sub_group:" + lab, "grp.sub_group " + b.hex()))
     for lab, b in ris_pool(r, 6) + ris_bad_encodings(r, 3):
         out.append(("grp.ris_from_bytes:" + lab, "grp.ris_from_bytes " + b.hex()))
+    # group::Group for RistrettoPoint, on EVERY coset representative of the element (P + T, T in E[4]); incl. the identity element
+    for lab, b in [("identity", bytes(32))] + ris_pool(r, 8):
+        for j in range(4):
+            out.append(("grp.ris_group:%s:rep%d" % (lab.split("(")[0][:10], j), "grp.ris_group %s %d" % (b.hex(), j)))
     return out
 
 
